@@ -27,9 +27,9 @@ let wire b = if List.length b <= 2048 then hex b else "#" ^ summ b
 
 let op_session args = match args with
   | uid :: w :: h :: layout :: name :: steps ->
-    let lay = if layout = "fr" then 0x40c else 0x409 in
+    let lay = keyboard_layout_from (List.map (fun c -> n_of_int (Char.code c)) (List.of_seq (String.to_seq layout))) in
     let s0 = init_session (n_of_int (int_of_string uid)) (n_of_int (int_of_string w)) (n_of_int (int_of_string h))
-               (n_of_int lay) (unhex name) in
+               lay (unhex name) in
     let p = prof () in
     let rec go s steps acc = match steps with
       | [] -> List.rev acc
